@@ -231,10 +231,10 @@ def quantifiers(f, top=True, acc=None):
     return acc
 
 
-def choose_opts(f, rng):
+def choose_opts(f, rng, kind=None):
     qs = quantifiers(f)
     nts = [q[0][1] if q[0][0] != "xq" else q[0][2] for q in qs]
-    opts = {"drop_in_start": rng.random() < 0.6, "infix": rng.random() < 0.6, "omit_names": set(), "free": set()}
+    opts = {"drop_in_start": rng.random() < 0.6, "infix": rng.random() < 0.6 or kind == "arith_chain", "omit_names": set(), "free": set()}
     for (q, top), nt in zip(qs, nts):
         var0 = q[2] if q[0] != "xq" else q[3]
         if var0.startswith("forcefree"):
@@ -287,6 +287,25 @@ def gen_ext(gen, rng):
                 body = (rng.choice(["and", "or"]), body, gen.atom({base: nt}))
             inner = (rng.choice(["forall", "exists"]), nt, base, "start", None, body)
             return ("forall", nt, fv, "start", None, inner), "free_named_clash"
+    if r < 0.16:
+        # integer arithmetic with three and more operands, mixed + / - / * (left-associative chains when printed infix)
+        nts = sorted(gen.reach["<start>"])
+        nt1, nt2 = rng.choice(nts), rng.choice(nts)
+        v, w = gen.fresh("q"), gen.fresh("q")
+        val = lambda x, nt: f"(str.to.int {x})" if nt in gen.numeral_nts and rng.random() < 0.7 else f"(str.len {x})"
+        ops = lambda: rng.choice(["+", "-", "-", "+", "*"])
+        a, b, c = val(v, nt1), val(w, nt2), str(rng.randint(0, 3))
+        operands = [a, b, c]
+        rng.shuffle(operands)
+        chain = f"({ops()} ({ops()} {operands[0]} {operands[1]}) {operands[2]})"
+        if rng.random() < 0.4:
+            chain = f"({ops()} {chain} {rng.randint(1, 2)})"
+        k = rng.randint(0, 4)
+        rhs = str(k) if rng.random() < 0.7 else f"(- 0 {k})"
+        atom = ("smt", f"({rng.choice(['=', '<=', '>', '>='])} {chain} {rhs})", sorted([v, w]))
+        if rng.random() < 0.3:
+            atom = ("not", atom)
+        return (rng.choice(["forall", "exists"]), nt1, v, "start", None, (rng.choice(["forall", "exists"]), nt2, w, "start", None, atom)), "arith_chain"
     if r < 0.35:
         return gen.formula(rng.randint(1, 3), scope), "plain"
     if r < 0.6:
